@@ -21,6 +21,7 @@ m('c02_lifo_inline', 'C02', MO, "                                    event = bus
 # ---- C03
 m('c03_no_children_check', 'C03', MO, "            if not self.event_are_all_children_complete():\n                # incomplete_children", "            if False:\n                # incomplete_children", 'complete without waiting for children')
 m('c03_no_upward_walk', 'C03', S, "            if parent_event.event_completed_signal and not parent_event.event_completed_signal.is_set():\n                parent_event.event_mark_complete_if_all_handlers_completed()\n", "            pass\n", 'skip upward propagation')
+m('c03_revert_f29', 'C03', S, "            if parent_event is None:\n                break\n", "            if not parent_event:\n                break\n", 'revert F29: truthiness test on the parent event in the completion walk')
 # ---- C04
 m('c04_one_iteration', 'C04', MO, "                max_iterations = 1000  # Prevent infinite loops", "                max_iterations = 1  # Prevent infinite loops", 'inline loop gives up after one iteration')
 # ---- C05/C06
